@@ -294,6 +294,8 @@ func TestVerifC21(t *testing.T) {
 		w := newWorld(r, cfg)
 		sparse := tp.Choose(2) == 0
 		nDamage := []int{0, 1, 1, 1, 2}[tp.Choose(5)]
+		vmode := []restorer.OverwriteBehavior{restorer.OverwriteAlways, restorer.OverwriteIfChanged, restorer.OverwriteIfNewer, restorer.OverwriteNever}[tp.Choose(4)]
+		keepMtime := tp.Choose(2) == 0 // the damage leaves the file's modification time as restored
 		r.Set("cfg", cfg.String())
 		simrt.Run(r.T, w.s, 15*time.Minute, func() {
 			w.begin()
@@ -353,7 +355,7 @@ func TestVerifC21(t *testing.T) {
 				}
 				printer := restoreui.NewTextProgress(term, 0)
 				progress := restoreui.NewProgress(printer, true, false, false)
-				res := restorer.NewRestorer(repo, sn, restorer.Options{Sparse: sparse, Progress: progress})
+				res := restorer.NewRestorer(repo, sn, restorer.Options{Sparse: sparse, Progress: progress, Overwrite: vmode})
 				count, err := res.RestoreTo(ctx, target)
 				if err != nil {
 					rerr = err
@@ -369,6 +371,7 @@ func TestVerifC21(t *testing.T) {
 						continue
 					}
 					_ = os.Chmod(p, 0o644)
+					fi0, _ := os.Lstat(p)
 					switch k := tp.Choose(3); {
 					case k == 0 && len(cur) > 0:
 						pos := tp.Choose(len(cur))
@@ -383,6 +386,9 @@ func TestVerifC21(t *testing.T) {
 						_ = os.WriteFile(p, append(cur, byte(tp.Choose(256))), 0o644)
 						desc = append(desc, fmt.Sprintf("%s: one byte appended to %d", f.Name, len(cur)))
 					}
+					if keepMtime && fi0 != nil {
+						_ = os.Chtimes(p, fi0.ModTime(), fi0.ModTime())
+					}
 					w.s.Count("fault:restored-file-damaged")
 				}
 				nchecked, verr = res.VerifyFiles(ctx, target, count, restic.NoopCounter)
@@ -395,7 +401,9 @@ func TestVerifC21(t *testing.T) {
 				return
 			}
 			r.Set("damage", fmt.Sprint(desc))
-			r.CaseKey = cfg.String() + fmt.Sprint(sparse, desc)
+			r.CaseKey = cfg.String() + fmt.Sprint(sparse, desc, vmode, keepMtime)
+			r.Set("overwrite", vmode.String())
+			r.Set("damage_keeps_mtime", keepMtime)
 			// ground truth: does any restored file differ now?
 			differs := ""
 			for _, f := range files {
